@@ -15,9 +15,11 @@ ASSUMPTIONS = ["reference: harness/ref.py with Fractions: add/sub/neg and multip
                "& co, so Python evaluates t = t + x)"]
 PARTIAL = ["C14_program (program level) is for completing runs inside FxpFragment (Spec/FxpProg.lean, table Instr.fxExcl); excluded with reason: "
            "guardRegion, ignoreErrors (set ign), resAfterFxp (set res while a fixed-point value exists: values are not rescaled), "
-           "lincombStrictCompareFxp (finding C14-lincomb-strict-compare-fxp), negativeShift / secretShift (C05 findings), fxpPow, "
+           "secretShift (finding C05-secret-exponent-mod-p), fxpPow, "
            "integerBitOp, boolOperand, unaryOther, otherMethod (assertions, to_bits/from_bits, explicit widths), containerSelect, "
-           "secretIndex, secretLiteral, operandKind; the gadget-level theorems C14_*_exact have no such restriction"]
+           "secretIndex, secretLiteral, operandKind; the gadget-level theorems C14_*_exact have no such restriction; strict comparisons "
+           "with an integer secret on the left of a fixed-point value and shifts by a negative public count are inside the fragment "
+           "since the repairs of C14-lincomb-strict-compare-fxp and C05-rshift-negative"]
 LEVELS = "V"
 FX_KINDS = [("X", "X"), ("X", "X"), ("X", "L"), ("L", "X"), ("X", "I"), ("I", "X"), ("X", "F"), ("F", "X"), ("X", "B"), ("B", "X")]
 FX_OPS = ["add", "sub", "mul", "truediv", "floordiv", "mod", "lt", "le", "eq", "ne", "gt", "ge"]
@@ -109,7 +111,8 @@ def explore(ctx, extended=False, focus=None):
                 break
             if rv[0] == "RAISE" and R.kinds[i] == "?" and r.case.instrs[i].startswith("bin"):
                 sig = instr_sig(r.case, r.regs, i); sig["dev"] = "value-where-undefined"
-                ex.violations.append(Violation(sig, f"r{i} ({r.case.instrs[i]}) returned {got[:50]} for a zero divisor", {"case": r.case.line()}))
+                ex.violations.append(Violation(sig, f"r{i} ({r.case.instrs[i]}) returned {got[:50]} where the reference raises (zero divisor / "
+                                                    f"negative shift count)", {"case": r.case.line()}))
                 break
         if len(ex.samples) < 6 and r.cons:
             ex.samples.append(r.case.line())
